@@ -291,8 +291,11 @@ func ElementAtFunc(query *Query, current Map, functionOptions *FunctionOptions, 
 	if err != nil {
 		return nil, err
 	}
+	if indexRaw == nil {
+		return nil, EXPECTATION_FAILED.Extend("index is null")
+	}
 	index := int(*indexRaw)
-	if len(*slice) > index {
+	if index >= 0 && len(*slice) > index {
 		return (*slice)[index], nil
 	}
 	return nil, EXPECTATION_FAILED.Extend(fmt.Sprintf("index %d is out of range", index))
